@@ -26,15 +26,17 @@ Definition ring0 (maxq : N) : ring :=
 Record reg := { g_thread : nat; g_kfd : kfd; g_idx : N }.
 
 Record mapping := { m_vmm : N; m_size : N; m_gpa : N }.
-Record region := { rg_gpa : N; rg_size : N; rg_file : N; rg_off : N }.
+(* rg_log: the dirty log this region's bitmap writes to (file, offset of the mapped window, its length) *)
+Record region := { rg_gpa : N; rg_size : N; rg_file : N; rg_off : N; rg_log : option (N * N * N) }.
 (* memory side of the daemon: the translation table, the guest memory handed to the backend, the shared
    files (size and bytes written so far; unwritten bytes are zero), and what the backend was told *)
 Record dmem := {
   m_maps : list mapping; m_regs : list region;
   m_fsizes : list (N * N); m_fbytes : list (N * N * N);
-  m_upd : N; m_ackf : list N; m_evlog : list N }.
+  m_upd : N; m_ackf : list N; m_evlog : list N;
+  m_log : option (N * N * N) }.            (* the dirty log in force: file, window offset, window length *)
 Definition dmem0 : dmem :=
-  {| m_maps := []; m_regs := []; m_fsizes := []; m_fbytes := []; m_upd := 0; m_ackf := []; m_evlog := [] |}.
+  {| m_maps := []; m_regs := []; m_fsizes := []; m_fbytes := []; m_upd := 0; m_ackf := []; m_evlog := []; m_log := None |}.
 
 Record dstate := {
   d_nq : nat; d_maxq : N; d_features : N; d_pfeatures : N; d_masks : list N;
@@ -182,7 +184,7 @@ Definition h_set_features (s : dstate) (v : N) : dstate * dres :=
     let m := d_mem s2 in
     (set_mem (set_rings s2 rs)
              {| m_maps := m_maps m; m_regs := m_regs m; m_fsizes := m_fsizes m; m_fbytes := m_fbytes m; m_upd := m_upd m;
-                m_ackf := m_ackf m ++ [v]; m_evlog := m_evlog m ++ [if ev then 1 else 0] |}, DOk []).
+                m_ackf := m_ackf m ++ [v]; m_evlog := m_evlog m ++ [if ev then 1 else 0]; m_log := m_log m |}, DOk []).
 
 Definition h_reset_device (s : dstate) : dstate * dres :=
   let s1 := enable_all s (d_nq s) 0 false in
@@ -267,10 +269,10 @@ Definition fbyte_of (m : dmem) (f off : N) : N :=
   match find (fun t => (fst (fst t) =? f) && (snd (fst t) =? off)) (m_fbytes m) with Some t => snd t | None => 0 end.
 Definition with_files (m : dmem) (sizes : list (N * N)) (bytes : list (N * N * N)) : dmem :=
   {| m_maps := m_maps m; m_regs := m_regs m; m_fsizes := sizes; m_fbytes := bytes; m_upd := m_upd m;
-     m_ackf := m_ackf m; m_evlog := m_evlog m |}.
+     m_ackf := m_ackf m; m_evlog := m_evlog m; m_log := m_log m |}.
 Definition with_table (m : dmem) (maps : list mapping) (regs : list region) : dmem :=
   {| m_maps := maps; m_regs := regs; m_fsizes := m_fsizes m; m_fbytes := m_fbytes m; m_upd := m_upd m + 1;
-     m_ackf := m_ackf m; m_evlog := m_evlog m |}.
+     m_ackf := m_ackf m; m_evlog := m_evlog m; m_log := m_log m |}.
 Fixpoint put_bytes (f off : N) (bytes : list N) (acc : list (N * N * N)) : list (N * N * N) :=
   match bytes with
   | [] => acc
@@ -302,13 +304,42 @@ Fixpoint put_locs (locs : list (N * N)) (bytes : list N) (acc : list (N * N * N)
   | (f, o) :: rl, b :: rb => put_locs rl rb ((f, o, b) :: acc)
   | _, _ => acc
   end.
-(* write_slice: the bytes that fit before the first gap are written; the call fails unless all were *)
+(* the dirty-log bit of guest byte x of region r: bit (page mod 8) of log byte (page / 8), where page is the region's
+   first page plus the page of the offset inside the region; offsets beyond the region's whole pages are ignored *)
+Definition mark_loc (r : region) (x : N) : option (N * N * N) :=
+  match rg_log r with
+  | Some (f, off, len) =>
+      let page := (x - rg_gpa r) / 4096 in
+      if page <? rg_size r / 4096
+      then let abs := rg_gpa r / 4096 + page in Some (f, off + abs / 8, 2 ^ (abs mod 8))
+      else None
+  | None => None
+  end.
+Definition store_get (l : list (N * N * N)) (f off : N) : N :=
+  match find (fun t => (fst (fst t) =? f) && (snd (fst t) =? off)) l with Some t => snd t | None => 0 end.
+Fixpoint apply_marks (regs : list region) (a : N) (n : nat) (st : list (N * N * N)) : list (N * N * N) :=
+  match n with
+  | O => st
+  | S k =>
+      let st1 := match region_of regs a with
+                 | Some r => match mark_loc r a with
+                             | Some (f, o, bit) => (f, o, N.lor (store_get st f o) bit) :: st
+                             | None => st
+                             end
+                 | None => st
+                 end in
+      apply_marks regs (a + 1) k st1
+  end.
+(* write_slice: the bytes that fit before the first gap are written (and their pages logged); the call fails unless
+   all were *)
 Definition mem_write (m : dmem) (a : N) (bytes : list N) : dmem * bool :=
   match bytes with
   | [] => (m, o_is_some (region_of (m_regs m) a))
   | _ =>
       let locs := mem_locs (m_regs m) a (List.length bytes) in
-      (with_files m (m_fsizes m) (put_locs locs bytes (m_fbytes m)), Nat.eqb (List.length locs) (List.length bytes))
+      let st1 := put_locs locs bytes (m_fbytes m) in
+      (with_files m (m_fsizes m) (apply_marks (m_regs m) a (List.length locs) st1),
+       Nat.eqb (List.length locs) (List.length bytes))
   end.
 Definition mem_read (m : dmem) (a : N) (n : nat) : option (list N) :=
   match n with
@@ -345,8 +376,14 @@ Fixpoint insert_reg (x : region) (l : list region) : list region :=
   end.
 
 (* a = [gpa; size; user; off; file] *)
-Definition mk_region (a : list N) : region :=
-  {| rg_gpa := nth 0 a 0; rg_size := nth 1 a 0; rg_file := nth 4 a 0; rg_off := nth 3 a 0 |}.
+Definition mk_region (log : option (N * N * N)) (a : list N) : region :=
+  {| rg_gpa := nth 0 a 0; rg_size := nth 1 a 0; rg_file := nth 4 a 0; rg_off := nth 3 a 0; rg_log := log |}.
+(* a new region takes the dirty log in force, which must be able to cover it *)
+Definition log_fits (len : N) (r : region) : bool :=
+  (rg_gpa r mod 4096 =? 0) && (rg_size r mod 4096 =? 0) && (((rg_gpa r + rg_size r - 1) / 4096) / 8 <? len).
+Definition new_region_ok (m : dmem) (a : list N) : bool :=
+  mmap_ok m (nth 3 a 0) (nth 1 a 0) (nth 4 a 0)
+  && match m_log m with Some (_, _, len) => log_fits len (mk_region None a) | None => true end.
 Definition mk_mapping (a : list N) : mapping :=
   {| m_vmm := nth 2 a 0; m_size := nth 1 a 0; m_gpa := nth 0 a 0 |}.
 Definition region_arg_valid (a : list N) : bool :=
@@ -355,16 +392,16 @@ Definition region_arg_valid (a : list N) : bool :=
 
 Definition h_set_mem_table (s : dstate) (rl : list (list N)) : dstate * dres :=
   let m := d_mem s in
-  if negb (forallb (fun a => mmap_ok m (nth 3 a 0) (nth 1 a 0) (nth 4 a 0)) rl) then (s, DErr)
+  if negb (forallb (new_region_ok m) rl) then (s, DErr)
   else
-    let regs := map mk_region rl in
+    let regs := map (mk_region (m_log m)) rl in
     if negb (Nat.ltb 0 (List.length regs)) || negb (regs_sorted regs) then (s, DErr)
     else (set_mem s (with_table m (map mk_mapping rl) regs), DOk []).
 Definition h_add_mem (s : dstate) (a : list N) : dstate * dres :=
   let m := d_mem s in
-  if negb (mmap_ok m (nth 3 a 0) (nth 1 a 0) (nth 4 a 0)) then (s, DErr)
+  if negb (new_region_ok m a) then (s, DErr)
   else
-    let regs := insert_reg (mk_region a) (m_regs m) in
+    let regs := insert_reg (mk_region (m_log m) a) (m_regs m) in
     if negb (regs_sorted regs) then (s, DErr)
     else (set_mem s (with_table m (m_maps m ++ [mk_mapping a]) regs), DOk []).
 Definition h_rem_mem (s : dstate) (a : list N) : dstate * dres :=
@@ -374,6 +411,19 @@ Definition h_rem_mem (s : dstate) (a : list N) : dstate * dres :=
   then (set_mem s (with_table m (filter (fun mp => negb (m_gpa mp =? nth 0 a 0)) (m_maps m))
                               (filter (fun r => negb (rg_gpa r =? nth 0 a 0)) (m_regs m))), DOk [])
   else (s, DErr).
+
+
+(* SET_LOG_BASE: map the log window, build one bitmap per current region (each must fit), then install them all *)
+Definition with_logs (m : dmem) (regs : list region) (log : option (N * N * N)) : dmem :=
+  {| m_maps := m_maps m; m_regs := regs; m_fsizes := m_fsizes m; m_fbytes := m_fbytes m; m_upd := m_upd m;
+     m_ackf := m_ackf m; m_evlog := m_evlog m; m_log := log |}.
+Definition h_set_log_base (s : dstate) (size off file : N) : dstate * dres :=
+  let m := d_mem s in
+  if (2 ^ 63 <=? off) || (2 ^ 63 <=? size) then (s, DErr)
+  else if (size =? 0) || negb (off mod PAGE =? 0) then (s, DErr)
+  else if negb (forallb (log_fits size) (m_regs m)) then (s, DErr)
+  else (set_mem s (with_logs m (map (fun r => {| rg_gpa := rg_gpa r; rg_size := rg_size r; rg_file := rg_file r; rg_off := rg_off r;
+                                                 rg_log := Some (file, off, size) |}) (m_regs m)) (Some (file, off, size))), DOk []).
 
 Definition va_to_gpa (maps : list mapping) (va : N) : option N :=
   match find (fun mp => (m_vmm mp <=? va) && (va <? m_vmm mp + m_size mp)) maps with
@@ -618,6 +668,13 @@ Definition d_apply (s : dstate) (kind : string) (a : list N) (data : list N) (rl
     control s (q_fe && (N.land (arg 1%nat) (lnot 32 1) =? 0))
             ((arg 2%nat mod 16 =? 0) && (arg 4%nat mod 2 =? 0) && (arg 3%nat mod 4 =? 0)) false
             (fun s => h_set_vring_addr s a)
+  else if String.eqb kind "set_log_base" then
+    (* a = [size; off; file] *)
+    if negb (hasd (d_fe_apf s) VhostUserProtocolFeatures_LOG_SHMFD) then
+      (if d_dead s then (s, VS "err") else (kill s, VS "ok"))
+    else
+      control s true (hasd (d_rq_acked_proto s) VhostUserProtocolFeatures_LOG_SHMFD && negb (q =? 0) && (arg 1%nat + q <? 2 ^ 64)) true
+              (fun s => h_set_log_base s q (arg 1%nat) (arg 2%nat))
   else if String.eqb kind "regions" then
     if existsb (Nat.eqb 0) (d_worker_dead s) then (s, VS "worker-timeout")
     else (s, if m_upd (d_mem s) =? 0 then VL []
@@ -626,6 +683,13 @@ Definition d_apply (s : dstate) (kind : string) (a : list N) (data : list N) (rl
     if existsb (Nat.eqb 0) (d_worker_dead s) then (s, VS "worker-timeout")
     else if m_upd (d_mem s) =? 0 then (s, VS "no-memory")
     else let '(m1, ok) := mem_write (d_mem s) q data in (set_mem s m1, VS (if ok then "ok" else "error"))
+  else if String.eqb kind "par_write" then
+    (* concurrent writers of the same bytes at different addresses: any order gives the same memory and log *)
+    if m_upd (d_mem s) =? 0 then (s, VS "no-memory")
+    else
+      let '(m1, ok) := fold_left (fun acc g => let '(m0, ok0) := acc in let '(m', ok') := mem_write m0 g data in (m', ok0 && ok'))
+                                 a (d_mem s, true) in
+      (set_mem s m1, VS (if ok then "ok" else "error"))
   else if String.eqb kind "read_mem" then
     if existsb (Nat.eqb 0) (d_worker_dead s) then (s, VS "worker-timeout")
     else if m_upd (d_mem s) =? 0 then (s, VS "no-memory")
